@@ -66,10 +66,11 @@ pub fn cone_witnesses(rng: &mut Rng, depth: u8, lon: f64, lat: f64, r: f64, maxw
   };
   push(lon, lat);
   let rr = r.min(PI);
-  for frac in [0.25, 0.5, 0.75, 0.9, 0.97, 0.995, 1.0 - 1e-6].iter() {
+  for frac in [0.25, 0.5, 0.75, 0.9, 0.97, 0.99, 0.997, 0.999, 0.9997, 0.9999, 1.0 - 1e-6].iter() {
     let rho = rr * frac;
     let circ = TWO_PI * rho.sin().abs().max(1e-300);
-    let npts = ((circ / (0.25 * s)).ceil() as usize + 8).min(700);
+    // at least 240 azimuths per ring: at shallow depths a cell may be touched through a thin corner only
+    let npts = ((circ / (0.25 * s)).ceil() as usize + 8).max(240).min(700);
     let a0 = rng.f64() * TWO_PI;
     for k in 0..npts {
       let (l, b) = offset_point(lon, lat, rho, a0 + TWO_PI * (k as f64) / (npts as f64));
@@ -80,6 +81,18 @@ pub fn cone_witnesses(rng: &mut Rng, depth: u8, lon: f64, lat: f64, r: f64, maxw
   // keep at most maxw, evenly spread
   if v.len() > maxw { let step = v.len() as f64 / maxw as f64; v = (0..maxw).map(|k| v[(k as f64 * step) as usize].clone()).collect(); }
   v
+}
+/// Same witnesses, but when there are more than `maxw` of them the ones that no cell of the result covers (digit-path prefix)
+/// come first: the sample handed to TLC is adversarial, TLC remains the judge of every witness it receives.
+pub fn cone_witnesses_for(rng: &mut Rng, depth: u8, lon: f64, lat: f64, r: f64, maxw: usize, result: &[C]) -> Vec<C> {
+  let all = cone_witnesses(rng, depth, lon, lat, r, usize::MAX);
+  if all.len() <= maxw { return all; }
+  let covered = |w: &C| result.iter().any(|c| c.b == w.b && c.p.len() <= w.p.len() && c.p[..] == w.p[..c.p.len()]);
+  let (mut unc, cov): (Vec<C>, Vec<C>) = all.into_iter().partition(|w| !covered(w));
+  unc.truncate(maxw);
+  let room = maxw - unc.len();
+  if room > 0 && !cov.is_empty() { let step = cov.len() as f64 / room as f64; for k in 0..room.min(cov.len()) { unc.push(cov[((k as f64 * step) as usize).min(cov.len() - 1)].clone()); } }
+  unc
 }
 
 /// sample points of a cell: its 4 vertices and `m` points inside each edge, from exact local coordinates
@@ -121,6 +134,7 @@ pub fn cone_event(rng: &mut Rng, depth: u8, dd: u8, lon: f64, lat: f64, r: f64, 
                     "in": format!("{} r={:e}", pos_str(lon, lat), r)});
   let mut ev = base;
   let m = ev.as_object_mut().unwrap();
+  m.insert("sar".into(), json!(crate::refcmp::cone(depth, dd, lon, lat, r, &res)));
   match res {
     None => { m.insert("p".into(), json!(1)); m.insert("dmax".into(), json!(0)); m.insert("cells".into(), json!([])); m.insert("wit".into(), json!([]));
               m.insert("full_excess".into(), json!(0)); m.insert("slack".into(), json!(0)); m.insert("rtol".into(), json!(0)); m.insert("pen".into(), json!(0));
@@ -129,7 +143,7 @@ pub fn cone_event(rng: &mut Rng, depth: u8, dd: u8, lon: f64, lat: f64, r: f64, 
       let large = class == "large";
       if bm.entries.len() > (if large { MAX_CELLS_LARGE } else { MAX_CELLS }) { return None; }
       let cells = cells_of(&bm);
-      let wit = if r >= PI { vec![] } else { cone_witnesses(rng, depth, lon, lat, r, if large { 40 } else { 120 }) };
+      let wit = if r >= PI { vec![] } else { cone_witnesses_for(rng, depth, lon, lat, r, if large { 40 } else { 120 }, &cells) };
       // full cells must lie entirely in the cone: worst excess over vertices and edge points
       let mut full_excess: f64 = -1.0;
       // attribution only: the excess relative to the size of the offending cell, in 1/1000 of 1/nside
@@ -239,6 +253,14 @@ pub fn record_cone(rng: &mut Rng, count: u64, out: &mut Out) {
       let (lo, la) = nested::get_or_create(depth).center(hash_of_cell(depth, c));
       (lo, la, (cell_size(depth) * rng.range(0.02, 3.0)).min(3.0), depth, if rng.below(4) == 0 { (1 + rng.below(2) as u8).min(29 - depth) } else { 0 }, "cellcentre")
     } else { (lon, lat, r, depth, dd, class) };
+    // class "cap-small": the small-cone branch (radius below the starting-depth threshold of the requested depth) at shallow
+    // depths, centred in a polar cap: the cells are large, strongly sheared next to the seams, and the cone is wide in longitude
+    let (lon, lat, r, depth, dd, class) = if class != "corner" && class != "cellcentre" && rng.below(12) == 0 {
+      let depth = rng.below(6) as u8;
+      let r = thr[depth as usize] * rng.range(0.25, 0.999);
+      let sgn = if rng.bool() { 1.0 } else { -1.0 };
+      (rng.range(0.0, TWO_PI), sgn * rng.range(0.73, 1.5), r, depth, if rng.below(4) == 0 { 1 } else { 0 }, "cap-small")
+    } else { (lon, lat, r, depth, dd, class) };
     if let Some(ev) = cone_event(rng, depth, dd, lon, lat, r, if class == "uniform" { rclass } else { class }) { out.emit(ev); }
   }
 }
@@ -259,9 +281,45 @@ pub fn record_cone_large(rng: &mut Rng, count: u64, out: &mut Out) {
     let capdiag = lat.abs() > 1.0 && rng.below(4) != 0;
     let r = if capdiag { rng.range(0.1, 0.6) } else { 10f64.powf(rng.range(-1.3, 0.2)) };
     let mut depth = if capdiag { 6 + rng.below(2) as u8 } else { 3 + rng.below(5) as u8 };
+    // class "circumscribed": the cone is centred on the centre of a cell of depth k and just contains it (radius 1 .. 10 %
+    // above the distance to its farthest vertex), queried 3 .. 5 levels deeper: the sibling merges of the packing must
+    // cascade from the requested depth up to the depth of that cell (or one above, when its siblings are full too)
+    let (lon, lat, r, mut depth) = if rng.below(4) == 0 {
+      let k = rng.below(5) as u8;
+      let n = 1u64 << k;
+      let c = if rng.bool() { Cell { b: 4 + rng.below(4) as u8, i: rng.below(n) as u32, j: rng.below(n) as u32 } } else { Cell { b: rng.below(12) as u8, i: rng.below(n) as u32, j: rng.below(n) as u32 } };
+      let (cl, cb) = ref_unproj_local(n as f64, c.b, c.i as f64 + 0.5, c.j as f64 + 0.5);
+      (cl.rem_euclid(TWO_PI), cb, (true_c2v(k, c) * *rng.pick(&[1.01, 1.03, 1.06, 1.10, 1.3])).min(3.1), k + 3 + rng.below(3) as u8)
+    } else if rng.below(2) == 0 {
+      // class "vertex-touch": the cone barely reaches over a vertex V of a cell of a coarse depth k (by 0.3 .. 3 cells of the
+      // requested depth, k + 3 .. k + 4): up to three coarse cells are only touched at that corner, and the descent must keep them
+      let k = rng.below(6) as u8;
+      let n = 1u64 << k;
+      // the vertex is drawn in one of the three latitude regimes of the cell shapes (polar caps, |lat| between the latitude of
+      // the square cells 0.3997 and the transition latitude, lower equatorial region), each with the same weight
+      let regime = rng.below(3);
+      let (mut vl, mut vb) = (0.0, 0.0);
+      for _ in 0..40 {
+        let c = if rng.below(4) == 0 { crate::sc_nested::special_cells(rng, k) } else { Cell { b: rng.below(12) as u8, i: rng.below(n) as u32, j: rng.below(n) as u32 } };
+        let (da, dc) = *rng.pick(&[(0.0, 0.0), (1.0, 0.0), (0.0, 1.0), (1.0, 1.0)]);
+        let v = ref_unproj_local(n as f64, c.b, c.i as f64 + da, c.j as f64 + dc);
+        vl = v.0; vb = v.1;
+        let a = vb.abs();
+        if (regime == 0 && a > 0.7297276562269663) || (regime == 1 && a > 0.3997 && a <= 0.7297276562269663) || (regime == 2 && a <= 0.3997) { break; }
+      }
+      let dreq = k + 3 + rng.below(2) as u8;
+      let r = cell_size(k) * rng.range(0.25, 1.0);
+      let pen = cell_size(dreq) * 10f64.powf(rng.range(-1.3, 0.5));
+      // two thirds of the time the centre is (almost) due north or south of V: V is then the extreme-latitude point of the cone,
+      // which passes the iso-latitude ring of vertices through V by `pen` only
+      let az = if rng.below(3) != 0 { (if rng.bool() { 0.0 } else { PI }) + rng.range(-0.25, 0.25) } else { rng.range(0.0, TWO_PI) };
+      let (cl, cb) = offset_point(vl, vb.max(-HALF_PI + 1e-6).min(HALF_PI - 1e-6), (r - pen).max(0.1 * r), az);
+      (cl.rem_euclid(TWO_PI), cb, r, dreq)
+    } else { (lon, lat, r, depth) };
     // keep the result below the size given to TLC
     loop {
-      match cone_event(rng, depth, 0, lon, lat, r, "large") {
+      let ddl = if rng.below(5) == 0 { 1u8.min(29 - depth) } else { 0 };
+      match cone_event(rng, depth, ddl, lon, lat, r, "large") {
         Some(ev) => { out.emit(ev); break; }
         None => { if depth <= 2 { break; } depth -= 1; }
       }
@@ -353,7 +411,7 @@ pub fn record_c16(rng: &mut Rng, count: u64, out: &mut Out) {
         let (lmin, lmax) = (lats.iter().cloned().fold(f64::MAX, f64::min), lats.iter().cloned().fold(0.0, f64::max));
         let straddle = (lmin < tl + 1e-12 && lmax > tl - 1e-12) as u8;
         let capcell = (lmin >= tl - 1e-12) as u8;
-        out.emit(json!({"ev": "c2v", "d": depth, "c": c.json(), "p": b.is_none() as u8, "deficit": b.map_or(0, |b| deficit_ppm(true_c2v(depth, c), b)),
+        out.emit(json!({"ev": "c2v", "d": depth, "c": c.json(), "sar": crate::refcmp::c2v(depth, lon, lat, b), "p": b.is_none() as u8, "deficit": b.map_or(0, |b| deficit_ppm(true_c2v(depth, c), b)),
                         "straddle": straddle, "capcell": capcell,
                         "polerow": if c.b < 4 { (2 * (n - 1) - (c.i + c.j)) as i64 } else if c.b >= 8 { (c.i + c.j) as i64 } else { -1 }, "in": pos_str(lon, lat)}));
       }
@@ -385,7 +443,7 @@ pub fn record_c16(rng: &mut Rng, count: u64, out: &mut Out) {
         }
         let reg = if lat.abs() + r >= 0.7297276562269663 { "npc" } else { "eqr" };
         let ccap = (lat.abs() >= 0.7297276562269663) as u8;
-        out.emit(json!({"ev": "c2v_radius", "d": depth, "from": from, "reg": reg, "ccap": ccap, "r3": (r * 1000.0) as i64, "p": (b1.is_none() || arr.is_none()) as u8, "ncand": ncand, "deficit": worst1, "deficit_arr": worst_arr,
+        out.emit(json!({"ev": "c2v_radius", "d": depth, "from": from, "sar": crate::refcmp::c2v_radius(depth, from, lon, lat, r, b1, &arr), "reg": reg, "ccap": ccap, "r3": (r * 1000.0) as i64, "p": (b1.is_none() || arr.is_none()) as u8, "ncand": ncand, "deficit": worst1, "deficit_arr": worst_arr,
                         "len_ok": arr.as_ref().map_or(0, |a| (a.len() == (depth + 1 - from) as usize) as u8), "cls": class, "in": format!("{} r={:e}", pos_str(lon, lat), r)}));
       }
       _ => {
@@ -403,7 +461,7 @@ pub fn record_c16(rng: &mut Rng, count: u64, out: &mut Out) {
         let nearthr = thr.iter().any(|t| r < *t && r >= 0.97 * *t) as u8;
         let ccap = (lat.abs() > 0.7297276562269663) as u8;
         let wj: Vec<Value> = wit.iter().map(|c| cell_of_hash(ds, hash_of_path(c.b as u64, &c.p)).json()).collect();
-        out.emit(json!({"ev": "fits9", "d": ds, "p": h.is_none() as u8, "c": h.map_or(json!([]), |h| crate::sc_nested::cell_json(ds, h)), "wit": wj,
+        out.emit(json!({"ev": "fits9", "d": ds, "sar": crate::refcmp::fits9(r, ds, lon, lat), "p": h.is_none() as u8, "c": h.map_or(json!([]), |h| crate::sc_nested::cell_json(ds, h)), "wit": wj,
                         "cseam": cseam, "nearthr": nearthr, "ccap": ccap, "cls": class, "in": format!("{} r={:e}", pos_str(lon, lat), r)}));
       }
     }
@@ -430,8 +488,9 @@ pub fn ellipse_event(rng: &mut Rng, depth: u8, dd: u8, lon: f64, lat: f64, a: f6
   let mut ev = json!({"ev": "ellipse", "d": depth, "dd": dd, "f": face_of(n, lon, lat).json(), "circular": (a == b) as u8, "cls": class,
                       "in": format!("{} a={:e} b={:e} pa={:e}", pos_str(lon, lat), a, b, pa)});
   let m = ev.as_object_mut().unwrap();
+  m.insert("sar".into(), json!(crate::refcmp::ellipse(depth, dd, lon, lat, a, b, pa, &res)));
   let cells = bmoc_fields(m, &res);
-  let wit = if a == b && res.is_some() { cone_witnesses(rng, depth, lon, lat, a, 80) } else { vec![] };
+  let wit = if a == b && res.is_some() { cone_witnesses_for(rng, depth, lon, lat, a, 80, cells.as_deref().unwrap_or(&[])) } else { vec![] };
   m.insert("wit".into(), Value::Array(wit.iter().map(|c| json!({"b": c.b, "p": c.p})).collect()));
   m.insert("slack".into(), json!(cells.as_ref().map_or(-1, |cs| worst_slack(cs, lon, lat, a))));
   // attribution only (see cone_event): centre in a polar cap, penetration of the uncovered witness cells
@@ -515,6 +574,7 @@ pub fn polygon_event(rng: &mut Rng, depth: u8, exact: bool, centre: (f64, f64), 
                       "vf": vs.iter().map(|(l, b)| face_of(n, l.rem_euclid(TWO_PI), *b).json()).collect::<Vec<_>>(),
                       "in": format!("{} r={:e} {:?}", pos_str(centre.0, centre.1), radius, vs)});
   let m = ev.as_object_mut().unwrap();
+  m.insert("sar".into(), json!(crate::refcmp::polygon(depth, vs, exact, &res)));
   let cells = bmoc_fields(m, &res);
   // convex polygons: a cell flagged full has its 4 vertices and its centre inside (margin 1e-9 around the edges)
   let mut full_bad = 0;
@@ -685,12 +745,38 @@ pub fn record_c12(rng: &mut Rng, count: u64, out: &mut Out) {
         let m = lonlat_of_vec(sum);
         lon = m.0.rem_euclid(TWO_PI); lat = m.1; convex = true; class = "slope1";
       }
+      // class "corner-poly": a polygon next to one of the 8 points (k pi/2, +-asin(2/3)) where three base cells meet, centred
+      // slightly on the equatorial side, reaching into the elongated corner cells of the polar cap base cells
+      4 => {
+        let tl = 0.7297276562269663;
+        let p3 = (HALF_PI * rng.below(4) as f64, if rng.bool() { tl } else { -tl });
+        let c = offset_point(p3.0, p3.1, radius * rng.range(0.1, 1.1), (if p3.1 > 0.0 { PI } else { 0.0 }) + rng.range(-1.2, 1.2));
+        let a1 = rng.range(0.0, TWO_PI);
+        vs = (0..nv).map(|k| offset_point(c.0, c.1, radius, a1 + TWO_PI * k as f64 / nv as f64)).map(|(l, b)| (l.rem_euclid(TWO_PI), b)).collect();
+        if rng.bool() { vs.reverse(); }
+        lon = c.0.rem_euclid(TWO_PI); lat = c.1; convex = true; class = "corner-poly";
+      }
+      // class "transition-poly": a polygon hugging the transition latitude from the equatorial side (its centre below it by a
+      // fraction of its radius, a few vertices inside the tips of the polar cap cells, which are longer than the equatorial
+      // cells next to them), within a few cells of a base-cell seam half of the time; requested depth often much coarser than
+      // the polygon
+      5 => {
+        let tl = 0.7297276562269663;
+        let sgn = if rng.bool() { 1.0 } else { -1.0 };
+        let clat = sgn * (tl - radius * rng.range(0.05, 0.95));
+        let clon = if rng.bool() { (HALF_PI * rng.below(4) as f64 + rng.range(-3.0, 3.0) * radius.max(cell_size(gen_depth(rng, radius)))).rem_euclid(TWO_PI) } else { rng.range(0.0, TWO_PI) };
+        let a1 = rng.range(0.0, TWO_PI);
+        vs = (0..nv).map(|k| offset_point(clon, clat, radius, a1 + TWO_PI * k as f64 / nv as f64)).map(|(l, b)| (l.rem_euclid(TWO_PI), b)).collect();
+        if rng.bool() { vs.reverse(); }
+        lon = clon; lat = clat; convex = true; class = "transition-poly";
+      }
       _ => {}
     }
     // a polygon coverage is hierarchical (full cells at coarser depths): up to two depths deeper than for a cone of the same size
     // (results above the traced size are skipped)
     let mut depth = (gen_depth(rng, radius) + rng.below(3) as u8).min(29);
     let mut exact = rng.bool();
+    if class == "transition-poly" || class == "corner-poly" { depth = depth.saturating_sub(rng.below(6) as u8); }
     if class == "slope1" {
       // cells 6 to 24 times smaller than the polygon; mostly the exact mode (the special points only matter there)
       let size = vs.iter().map(|v| ang_dist(vs[0].0, vs[0].1, v.0, v.1)).fold(0.0, f64::max);
@@ -700,7 +786,7 @@ pub fn record_c12(rng: &mut Rng, count: u64, out: &mut Out) {
       exact = rng.below(4) != 0;
     }
     // the reference cone of the tightness clause must contain the polygon: measured for the constructed classes
-    let radius = if class == "meridian-kite" || class == "special-vertex" || class == "slope1" { vs.iter().map(|v| ang_dist(lon, lat, v.0, v.1)).fold(radius, f64::max) * (1.0 + 1e-9) } else { radius };
+    let radius = if class == "meridian-kite" || class == "special-vertex" || class == "slope1" || class == "corner-poly" || class == "transition-poly" { vs.iter().map(|v| ang_dist(lon, lat, v.0, v.1)).fold(radius, f64::max) * (1.0 + 1e-9) } else { radius };
     if let Some(ev) = polygon_event(rng, depth, exact, (lon, lat), radius, &vs, convex, class) { out.emit(ev); }
   }
 }
